@@ -1525,4 +1525,43 @@ theorem visible_frames_resolve (s : Stack) (pages : List Page) (hp : s.Paged pag
 example : ((Tether.new (1 : ℝ) 2 none).withTether ⟨1, 1⟩ ⟨3, 1⟩).endsProcessed = some (⟨1, 1⟩, ⟨3, 1⟩) :=
   (flat_tether_is_identity 1 2 ⟨1, 1⟩ ⟨3, 1⟩ rfl (by norm_num)).1
 
+
+/-! ## `define_tether` on a pixel-calibrated stack (points in image units) -/
+
+/-- With `cal` µm per pixel: the two points chosen in µm are mapped onto a horizontal left-to-right line — as
+    `plot_tether` reports it, in µm — of unchanged length and midpoint (the division by the calibration factor before the
+    rotation and the multiplication afterwards cancel). -/
+theorem define_tether_calibrated (ox oy cal : ℝ) (hcal : 0 < cal) (p q : Pt ℝ) (h : p.x ≠ q.x ∨ p.y ≠ q.y) :
+    ∃ a b, (((Tether.new ox oy none).defineCal cal p q).endsCal cal) = some (a, b) ∧ a.y = b.y ∧ a.x < b.x ∧
+      b.x - a.x = Real.sqrt ((q.x - p.x) * (q.x - p.x) + (q.y - p.y) * (q.y - p.y)) ∧
+      (a.x + b.x) / 2 = (p.x + q.x) / 2 ∧ (a.y + b.y) / 2 = (p.y + q.y) / 2 := by
+  have hne : cal ≠ 0 := ne_of_gt hcal
+  have h' : (⟨p.x / cal, p.y / cal⟩ : Pt ℝ).x ≠ (⟨q.x / cal, q.y / cal⟩ : Pt ℝ).x ∨
+      (⟨p.x / cal, p.y / cal⟩ : Pt ℝ).y ≠ (⟨q.x / cal, q.y / cal⟩ : Pt ℝ).y := by
+    rcases h with h | h
+    · left; simp only; intro hh; exact h ((div_left_inj' hne).mp hh)
+    · right; simp only; intro hh; exact h ((div_left_inj' hne).mp hh)
+  obtain ⟨a, b, hab, hpos, hax, hay, hbx, hby⟩ := fresh_tether ox oy ⟨p.x / cal, p.y / cal⟩ ⟨q.x / cal, q.y / cal⟩ h'
+  simp only at hpos hax hay hbx hby
+  have hD : (q.x / cal - p.x / cal) * (q.x / cal - p.x / cal) + (q.y / cal - p.y / cal) * (q.y / cal - p.y / cal) =
+      ((q.x - p.x) * (q.x - p.x) + (q.y - p.y) * (q.y - p.y)) / (cal * cal) := by
+    field_simp
+  have hsq : Real.sqrt (((q.x - p.x) * (q.x - p.x) + (q.y - p.y) * (q.y - p.y)) / (cal * cal)) * cal =
+      Real.sqrt ((q.x - p.x) * (q.x - p.x) + (q.y - p.y) * (q.y - p.y)) := by
+    rw [Real.sqrt_div' _ (le_of_lt (mul_pos hcal hcal)), Real.sqrt_mul_self (le_of_lt hcal)]
+    field_simp
+  rw [hD] at hpos hax hbx
+  refine ⟨⟨a.x * cal, a.y * cal⟩, ⟨b.x * cal, b.y * cal⟩, ?_, ?_, ?_, ?_, ?_, ?_⟩
+  · simp only [Tether.endsCal, Tether.defineCal, hab, Option.map_some]
+  · simp only; rw [hay, hby]
+  · simp only; rw [hax, hbx]; nlinarith
+  · simp only; rw [hax, hbx, ← hsq]; ring
+  · simp only; rw [hax, hbx]; field_simp; ring
+  · simp only; rw [hay, hby]; field_simp; ring
+
+example : ∃ a b, (((Tether.new (0 : ℝ) 0 none).defineCal 0.1 ⟨0, 0⟩ ⟨0.3, 0.4⟩).endsCal 0.1) = some (a, b) ∧ a.y = b.y ∧
+    a.x < b.x ∧ b.x - a.x = Real.sqrt ((0.3 - 0) * (0.3 - 0) + (0.4 - 0) * (0.4 - 0)) ∧
+    (a.x + b.x) / 2 = (0 + 0.3) / 2 ∧ (a.y + b.y) / 2 = (0 + 0.4) / 2 :=
+  define_tether_calibrated 0 0 0.1 (by norm_num) ⟨0, 0⟩ ⟨0.3, 0.4⟩ (Or.inl (by norm_num))
+
 end Verif.C07
